@@ -82,72 +82,95 @@ Qed.
 
 Lemma deliver_one cfg d a m :
   cfg_ok cfg -> wf_db d ->
-  (quota_enabled cfg = true -> is_quota_refusal (fst (spec_deliver cfg d a m)) = false) ->
-  to_mo (fst (deliver_message d a m (default_folder cfg))) = erase (fst (spec_deliver cfg d a m)) /\
-  snd (deliver_message d a m (default_folder cfg)) = snd (spec_deliver cfg d a m) /\
-  wf_db (snd (spec_deliver cfg d a m)).
+  to_mo (fst (deliver_message d a m (default_folder cfg))) = erase (fst (spec_deliver cfg false d a m)) /\
+  snd (deliver_message d a m (default_folder cfg)) = snd (spec_deliver cfg false d a m) /\
+  wf_db (snd (spec_deliver cfg false d a m)).
 Proof.
-  intros Hcfg Hwf HQ. unfold deliver_message, spec_deliver in *.
+  intros Hcfg Hwf. unfold deliver_message, spec_deliver in *.
   rewrite spam_routing. unfold extract_local_part, extract_domain.
   destruct (extract_parts a) as [[n dom]|]; cbn [option_map fst snd]; [|auto].
   change (get_role_mailbox_by_email d a) with (is_role d a).
   change (user_row_exists d n dom) with (user_exists d n dom).
   pose proof (spec_folder_nonempty cfg m Hcfg) as HF.
-  assert (Q : forall st, quota_enabled cfg && (quota_limit cfg <? usage_of d st + m_size m) = true ->
-              negb (is_role d a) && user_disabled d n dom = false ->
-              st = (if is_role d a then RoleStore a else UserStore n dom) -> False).
-  { intros st E1 E2 ->. apply andb_true_iff in E1 as [Eq E1]. specialize (HQ Eq).
-    rewrite E2 in HQ. rewrite Eq in HQ. cbn [andb] in HQ. rewrite E1 in HQ. cbn in HQ. discriminate. }
   destruct (is_role d a) eqn:ER; cbn [negb andb orb] in *.
-  - rewrite file_into_ok by exact HF.
-    destruct (quota_enabled cfg && (quota_limit cfg <? usage_of d (RoleStore a) + m_size m)) eqn:EQ.
-    + exfalso. exact (Q _ EQ eq_refl eq_refl).
-    + cbn [fst snd to_mo erase]. auto.
+  - rewrite file_into_ok by exact HF. cbn [fst snd to_mo erase]. auto.
   - destruct (get_user_by_username d n dom) eqn:EG.
     + assert (ED : user_disabled d n dom = false).
       { destruct (user_disabled d n dom) eqn:ED; [|reflexivity]. exfalso.
         exact (unique_not_both (users d) n dom Hwf EG ED). }
       rewrite ED in *. rewrite (enabled_exists d n dom EG).
-      rewrite file_into_ok by exact HF.
-      destruct (quota_enabled cfg && (quota_limit cfg <? usage_of d (UserStore n dom) + m_size m)) eqn:EQ.
-      * exfalso. exact (Q _ EQ eq_refl eq_refl).
-      * cbn [fst snd to_mo erase]. auto.
+      rewrite file_into_ok by exact HF. cbn [fst snd to_mo erase]. auto.
     + destruct (user_exists d n dom) eqn:EU.
       * rewrite (exists_split d n dom EU EG). cbn [fst snd to_mo erase]. auto.
       * assert (ED : user_disabled d n dom = false).
         { destruct (user_disabled d n dom) eqn:ED; [|reflexivity].
           apply disabled_exists in ED. congruence. }
         rewrite ED in *. rewrite file_into_ok by exact HF.
-        destruct (quota_enabled cfg && (quota_limit cfg <? usage_of d (UserStore n dom) + m_size m)) eqn:EQ.
-        -- exfalso. exact (Q _ EQ eq_refl eq_refl).
-        -- cbn [fst snd to_mo erase]. repeat split.
-           unfold wf_db, add_msg, add_user. cbn [users]. now apply unique_add.
+        cbn [fst snd to_mo erase]. repeat split.
+        unfold wf_db, add_msg, add_user. cbn [users]. now apply unique_add.
 Qed.
 
-(* ---- all deliveries ---- *)
-
-Lemma deliver_all cfg m : forall acc d,
-  cfg_ok cfg -> wf_db d ->
-  (quota_enabled cfg = true -> existsb is_quota_refusal (fst (spec_deliver_all cfg d acc m)) = false) ->
-  map (fun kv => to_mo (snd kv)) (fst (deliver_to_multiple d acc m (default_folder cfg)))
-    = map erase (fst (spec_deliver_all cfg d acc m)) /\
-  map fst (fst (deliver_to_multiple d acc m (default_folder cfg))) = acc /\
-  snd (deliver_to_multiple d acc m (default_folder cfg)) = snd (spec_deliver_all cfg d acc m).
+(** a recipient over quota: refused, nothing changes *)
+Lemma spec_over_refused cfg d a m : exists w, spec_deliver cfg true d a m = (Refused w, d).
 Proof.
-  induction acc as [|a acc IH]; intros d Hcfg Hwf HQ; [cbn; auto|].
+  unfold spec_deliver. destruct (extract_parts a) as [[n dom]|]; [|now exists WhySyntax].
+  destruct (negb (is_role d a) && user_disabled d n dom); [now exists WhyDisabled | now exists WhyQuota].
+Qed.
+
+(* ---- all deliveries (recipients within quota) ---- *)
+
+Lemma deliver_all cfg m over : forall acc d,
+  cfg_ok cfg -> wf_db d -> (forall r, In r acc -> over r = false) ->
+  map (fun kv => to_mo (snd kv)) (fst (deliver_to_multiple d acc m (default_folder cfg)))
+    = map erase (fst (spec_deliver_all cfg over d acc m)) /\
+  map fst (fst (deliver_to_multiple d acc m (default_folder cfg))) = acc /\
+  snd (deliver_to_multiple d acc m (default_folder cfg)) = snd (spec_deliver_all cfg over d acc m).
+Proof.
+  induction acc as [|a acc IH]; intros d Hcfg Hwf HO; [cbn; auto|].
   cbn [deliver_to_multiple spec_deliver_all] in *.
-  destruct (spec_deliver cfg d a m) as [o d1] eqn:ES.
-  destruct (spec_deliver_all cfg d1 acc m) as [os d2] eqn:ESA.
-  cbn [fst existsb] in HQ.
-  assert (HQ1 : quota_enabled cfg = true -> is_quota_refusal (fst (spec_deliver cfg d a m)) = false).
-  { intros E. specialize (HQ E). apply orb_false_iff in HQ as [H _]. now rewrite ES. }
-  destruct (deliver_one cfg d a m Hcfg Hwf HQ1) as [D1 [D2 D3]].
+  rewrite (HO a (or_introl eq_refl)).
+  destruct (deliver_one cfg d a m Hcfg Hwf) as [D1 [D2 D3]].
+  destruct (spec_deliver cfg false d a m) as [o d1] eqn:ES.
   destruct (deliver_message d a m (default_folder cfg)) as [res d1'] eqn:EM.
-  rewrite ES in D1, D2, D3. cbn [fst snd] in D1, D2, D3. subst d1'.
-  assert (HQ2 : quota_enabled cfg = true -> existsb is_quota_refusal (fst (spec_deliver_all cfg d1 acc m)) = false).
-  { intros E. specialize (HQ E). apply orb_false_iff in HQ as [_ H]. now rewrite ESA. }
-  destruct (IH d1 Hcfg D3 HQ2) as [I1 [I2 I3]].
+  cbn [fst snd] in D1, D2, D3. subst d1'.
+  destruct (IH d1 Hcfg D3 (fun r H => HO r (or_intror H))) as [I1 [I2 I3]].
+  destruct (spec_deliver_all cfg over d1 acc m) as [os d2] eqn:ESA.
   destruct (deliver_to_multiple d1 acc m (default_folder cfg)) as [more d2'] eqn:EDM.
-  rewrite ESA in I1, I3. cbn [fst snd map] in *.
+  cbn [fst snd map] in *.
   repeat split; [now rewrite D1, I1 | now rewrite I2 | exact I3].
+Qed.
+
+(* ---- recipients over quota are skipped ---- *)
+
+(** put MRefused at the positions of the recipients over quota *)
+Fixpoint weave (over : str -> bool) (acc : list str) (xs : list moutcome) : list moutcome :=
+  match acc with
+  | [] => []
+  | r :: acc' =>
+      if over r then MRefused :: weave over acc' xs
+      else match xs with
+           | x :: xs' => x :: weave over acc' xs'
+           | [] => []
+           end
+  end.
+
+Lemma spec_weave cfg m over : forall acc d,
+  map erase (fst (spec_deliver_all cfg over d acc m))
+    = weave over acc (map erase (fst (spec_deliver_all cfg over d (filter (fun r => negb (over r)) acc) m))) /\
+  snd (spec_deliver_all cfg over d acc m)
+    = snd (spec_deliver_all cfg over d (filter (fun r => negb (over r)) acc) m).
+Proof.
+  induction acc as [|a acc IH]; intros d; [cbn; auto|].
+  cbn [spec_deliver_all filter weave].
+  destruct (over a) eqn:EO; cbn [negb].
+  - destruct (spec_over_refused cfg d a m) as [w E]. rewrite E.
+    destruct (IH d) as [I1 I2].
+    destruct (spec_deliver_all cfg over d acc m) as [os d2].
+    cbn [fst snd map erase] in *. now rewrite I1, I2.
+  - cbn [spec_deliver_all]. rewrite EO.
+    destruct (spec_deliver cfg false d a m) as [o d1].
+    destruct (IH d1) as [I1 I2].
+    destruct (spec_deliver_all cfg over d1 acc m) as [os d2].
+    destruct (spec_deliver_all cfg over d1 (filter (fun r => negb (over r)) acc) m) as [os' d2'].
+    cbn [fst snd map erase] in *. now rewrite I1, I2.
 Qed.
